@@ -11,7 +11,7 @@ SCHEDULE_DEPENDENT = True
 RULE = ('one real ActiveObject under virtual (discrete-event) time; 1-4 concurrent timed sources created by post_fifo/'
         'post_lifo with period from {0.1, 0.25, 1, 7, 60} s, times from 0-6, deferred True/False/default, started at drawn '
         'instants; the timer threads, the consumer and the clients are interleaved by the seeded scheduler. "exact" stratum: '
-        'timers wake exactly on time; "jitter" stratum: every timer sleep is late by a drawn amount (injected fault). Oracle '
+        'timers wake exactly on time (in 40% of the runs some handler invocations sleep for 0.5-6 periods: a chart that falls behind must not change what is posted); "jitter" stratum: every timer sleep is late by a drawn amount (injected fault). Oracle '
         '(timer calendar): the virtual instants at which each source\'s thread appends to the queue are exactly t0 + k*p '
         '(k from 1 if deferred, from 0 if not) in the exact stratum, and never earlier than that and with gaps >= p in the '
         'jitter stratum; exactly n postings for times = n >= 1; for times = 0 exactly the calendar\'s count up to the horizon; '
@@ -53,10 +53,20 @@ def generate(seed, stratum, tier):
         'sched': common.draw_sched(rng, grans=('sync', 'line'), expected_steps=1500, victims=['consumer'], policies=('sticky', 'pct', 'starve'))}
   if stratum == 'jitter':
     sc['jitter_us'] = rng.choice([[0, 1000], [0, 0, 50000], [200, 3000, 250000]])
+  if rng.random() < 0.4:
+    # a slow chart: some handler invocations take 0.5-6 periods (the handler sleeps, holding no
+    # lock), so the chart falls behind its timed sources; what the sources post must not change
+    react = {}
+    for slot in range(nsrc):
+      if rng.random() < 0.7:
+        react['T%d' % slot] = [{'op': 'sleep', 'd': maxp * rng.choice([0.5, 1.5, 3, 6]), 'id': 20 + slot, 'max': rng.randrange(1, 4)}]
+    objs[0]['react'] = react
   return sc
 
 
 def shrink_candidates(sc):
+  if sc['objects'][0].get('react'):
+    yield dict(sc, objects=[dict(sc['objects'][0], react={})])
   cl = sc['clients']
   if len(cl) > 1:
     yield dict(sc, clients=cl[:1])
